@@ -14,9 +14,10 @@ ALLK = '{"req", "resp", "hdrs", "chunk"}'
 
 
 def gen_cfg(family, caps="{1, 100000}", kinds=ALLK, maxlen=100000, phases="{}", cfgs="{}",
-            follow="{}", alpha="{}", L="0", lanebytes="{}"):
+            follow="{}", alpha="{}", L="0", lanebytes="{}", fillmode="ascii"):
     return dict(Family='"%s"' % family, SeedCaps=caps, SeedKinds=kinds, SeedMaxLen=str(maxlen),
-                SeedPhases=phases, SeedCfgs=cfgs, Follow=follow, Alpha=alpha, L=L, LaneBytes=lanebytes)
+                SeedPhases=phases, SeedCfgs=cfgs, Follow=follow, Alpha=alpha, L=L, LaneBytes=lanebytes,
+                FillMode='"%s"' % fillmode)
 
 
 # name -> (constants, shards, workers-per-shard, simulate)
@@ -25,14 +26,21 @@ FAMILIES = {
     "byte_q": (gen_cfg("BYTE", follow="{10, 32}"), 8, 2),
     "ext_q": (gen_cfg("EXT", alpha=ALPHA11, L="2"), 4, 3),
     "lane_q": (gen_cfg("LANE", caps="{100000}", follow="{10}", L="66", lanebytes=LANE14), 4, 3),
+    # the same with a filler of high bytes (valid UTF-8): neighbours >= 0x80 next to the byte under test
+    "lane8_q": (gen_cfg("LANE", caps="{100000}", follow="{10, 32}", L="42", lanebytes=LANE14, fillmode="utf8",
+                        phases='{"TARGET", "VALUE", "REASON", "EXT", "IGN"}'), 4, 3),
     "len_q": (gen_cfg("LANE", caps="{100000}", follow="{10}", L="100", lanebytes="{10, 13, 32, 58}"), 4, 3),
     "chunk_q": (gen_cfg("EXT", kinds='{"chunk"}', maxlen=0, alpha=CHUNK14, L="5"), 1, 12),
     "digits": (gen_cfg("SEQ", kinds='{"chunk"}', maxlen=0, L='"DIGITS"'), 1, 4),
     "code_q": (gen_cfg("SEQ", caps="{100000}", kinds='{"resp"}', maxlen=0, cfgs="{0, 2}", L='"CODE"'), 1, 8),
     "lines_q": (gen_cfg("SEQ", caps="{0, 1, 2}", kinds='{"req", "resp", "hdrs"}', phases='{"HLINE"}', L='"LINES"'), 8, 2),
     "methods": (gen_cfg("SEQ", caps="{1, 100000}", kinds='{"req"}', maxlen=0, L='"METHODS"'), 2, 4),
+    # all 256 byte values (and a follow-up byte) at DEEP positions: resume contexts are long random
+    # walks instead of the shortest witnesses
+    "deep_q": (gen_cfg("BYTE", caps="{0, 1, 2, 100000}", follow="{10, 32}"), 4, 3, None, {"seeds_from": "walk_q", "stride": 601, "minlen": 40}),
+    "deep_t": (gen_cfg("BYTE", caps="{0, 1, 2, 100000}", follow="{10, 13, 32, 58, 97}"), 8, 2, None, {"seeds_from": "walk_t", "stride": 301, "minlen": 40}),
     "walk_q": (gen_cfg("WALK", caps="{1, 100000}", L="200"), 1, 8, "num=1500 -depth 220 -seed 11"),
-    "walk_t": (gen_cfg("WALK", caps="{0, 1, 2, 100000}", L="400"), 1, 12, "num=40000 -depth 420 -seed 12"),
+    "walk_t": (gen_cfg("WALK", caps="{0, 1, 2, 100000}", L="400"), 1, 12, "num=4000 -depth 420 -seed 12"),
     "reasons": (gen_cfg("SEQ", caps="{100000}", kinds='{"resp"}', maxlen=0, cfgs="{0, 2}", L='"REASONS"'), 2, 4),
     "versions": (gen_cfg("SEQ", caps="{100000}", kinds='{"req", "resp"}', maxlen=0, cfgs="{0, 1, 2}", L='"VERSIONS"'), 2, 4),
     # ---------------- thorough tier
@@ -40,10 +48,12 @@ FAMILIES = {
     "ext_t": (gen_cfg("EXT", caps="{0, 1, 2, 100000}", alpha=ALPHA11, L="3"), 8, 2),
     "ext17_t": (gen_cfg("EXT", caps="{100000}", alpha=ALPHA17, L="2"), 8, 2),
     "lane_t": (gen_cfg("LANE", caps="{100000}", follow="{10, 32}", L="70", lanebytes="{" + ", ".join(str(i) for i in range(256)) + "}"), 8, 2),
+    "lane8_t": (gen_cfg("LANE", caps="{100000}", follow="{10, 32}", L="70", lanebytes="{" + ", ".join(str(i) for i in range(256)) + "}", fillmode="utf8",
+                        phases='{"TARGET", "VALUE", "REASON", "EXT", "IGN"}'), 8, 2),
     "len_t": (gen_cfg("LANE", caps="{1, 100000}", follow="{10, 97}", L="100", lanebytes="{9, 10, 13, 32, 58}"), 8, 2),
     "chunk_t": (gen_cfg("EXT", kinds='{"chunk"}', maxlen=0, alpha=CHUNK14, L="6"), 1, 14),
     "code_t": (gen_cfg("SEQ", caps="{100000}", kinds='{"resp"}', maxlen=0, L='"CODE"'), 4, 3),
-    "lines_t": (gen_cfg("SEQ", caps="{0, 1, 2}", kinds='{"req", "resp", "hdrs"}', phases='{"HLINE"}', L='"LINES5"'), 8, 2),
+    "lines_t": (gen_cfg("SEQ", caps="{0, 1, 2}", kinds='{"req", "resp", "hdrs"}', phases='{"HLINE"}', cfgs="{0, 2, 49, 94}", maxlen=20, L='"LINES5"'), 8, 2),
     "hdrext_t": (gen_cfg("EXT", caps="{1, 100000}", kinds='{"resp", "hdrs"}', phases='{"HLINE", "NAME", "OWS", "VALUE", "IGN", "FOLD_V", "FOLD_E"}', cfgs="{0, 8, 64, 92, 94}", alpha=ALPHA11, L="4"), 8, 2),
 }
 
@@ -128,6 +138,7 @@ def family_file(name, timeout=3000):
     meta = os.path.join(d, name + ".meta.json")
     consts, shards, workers = FAMILIES[name][:3]
     simulate = FAMILIES[name][3] if len(FAMILIES[name]) > 3 else None
+    derived = FAMILIES[name][4] if len(FAMILIES[name]) > 4 else None
     if os.path.exists(p) and os.path.exists(meta):
         m = json.load(open(meta))
         if m.get("constants") == consts:
@@ -136,6 +147,21 @@ def family_file(name, timeout=3000):
     wd = os.path.join(WORK, "gen", name)
     shutil.rmtree(wd, ignore_errors=True)
     os.makedirs(wd)
+    if derived:
+        # seeds = [kind, cfg, cap, buf, phase] of sampled vectors of another family
+        src, _m = family_file(derived["seeds_from"])
+        seeds = os.path.join(wd, "seeds.ndjson")
+        n = 0
+        with open(src) as f, open(seeds, "w") as g:
+            for i, line in enumerate(f):
+                if i % derived["stride"]:
+                    continue
+                v = json.loads(line)
+                if len(v[3]) >= derived["minlen"] and v[4] == 0:
+                    g.write(json.dumps([v[0], v[1], v[2], v[3], v[15]]) + "\n")
+                    n += 1
+        if n < 10:
+            raise ToolError("derived seeds for %s: only %d" % (name, n))
     t0 = time.time()
     procs = []
     for r in range(shards):
@@ -143,7 +169,7 @@ def family_file(name, timeout=3000):
         open(cfg, "w").write(cfg_text(consts, shards, r))
         out = open(os.path.join(wd, "s%d.out" % r), "w")
         md = os.path.join(wd, "md%d" % r)
-        e = dict(os.environ, SEEDS=seeds, JAVA_TOOL_OPTIONS="-Xss16m -XX:ParallelGCThreads=2 -Xmx6g")
+        e = dict(os.environ, SEEDS=seeds, JAVA_TOOL_OPTIONS="-Xss512m -XX:ParallelGCThreads=2 -Xmx6g")
         cmd = ["timeout", str(timeout), "tlc", "-workers", str(workers)] + (["-simulate"] + simulate.split() if simulate else []) + [
                "-metadir", md, "-cleanup", "-noGenerateSpecTE", "-config", cfg, os.path.join(SPEC, "Gen.tla")]
         procs.append((subprocess.Popen(cmd, stdout=out, stderr=subprocess.STDOUT, env=e, cwd=wd), out, r))
